@@ -13,6 +13,8 @@ PROGRAMS = {
     "badfirst": ("bogus rax\nret\n", False),
     "badlast": ("mov rax, 0x5\nret\nadd rax, rxx\n", False),
     "long": ("xor eax, eax\n" + "".join("add rax, 0x%x\n" % (k + 1) for k in range(40)) + "ret\n", True),
+    # more than 6000 bytes of code: the library-managed buffer grows (and may move) before the code is run or written
+    "huge": ("xor eax, eax\n" + "add rax, 1\n" * 1700 + "ret\n", True),
 }
 
 
